@@ -16,13 +16,21 @@
 EXTENDS TypeLang, Json
 
 CONSTANTS MaxDepth,      \* chain length bound
-          WithPairs      \* BOOLEAN
+          WithPairs,     \* BOOLEAN
+          LeafMode       \* "plain": README leaf classes;  "mapped": type_mappings sources (C18)
 
 VARIABLE c
 
 L(cl) == [k |-> "leaf", c |-> cl]
 Named == [k |-> "named", n |-> "N"]
-LeafTypes == {L("str"), L("num"), L("bool"), L("unit"), Named}
+\* C18: source names of a type_mappings table (plain, generic, and one that is ALSO a project
+\* struct) with their configured TypeScript targets.
+Mapped(n, b, to) == [k |-> "mapped", n |-> n, base |-> b, to |-> to]
+MappedLeaves == {Mapped("PathBuf", "PathBuf", "string"), Mapped("Uuid", "Uuid", "string"),
+                 Mapped("DateTime<Utc>", "DateTime", "string"), Mapped("UserId", "UserId", "number"),
+                 Mapped("Flag", "Flag", "boolean")}
+LeafTypes == IF LeafMode = "mapped" THEN MappedLeaves \cup {Named}
+             ELSE {L("str"), L("num"), L("bool"), L("unit"), Named}
 
 Ctxs == {"opt", "vec", "hset", "bset", "ref", "res1",
          "hmapv", "bmapv", "hmapk", "bmapk", "resok", "reserr",
@@ -69,5 +77,7 @@ Next == UNCHANGED c
 \* bound; every prefix of a behaviour is a subterm of its last state.
 BInit == c \in LeafTypes
 BNext == \E cx \in Ctxs : CtxOK(cx, c) /\ c' = Apply(cx, c)
-Emit == PrintT(<<"REPLAY", ToJson(c)>>)
+Emit == IF LeafMode = "mapped"
+        THEN PrintT(<<"REPLAY", ToJson([t |-> c, s |-> Subst(c)])>>)
+        ELSE PrintT(<<"REPLAY", ToJson(c)>>)
 =============================================================================
